@@ -502,6 +502,72 @@ def r17_3(rep: Report, idx: Index, cg: CallGraph) -> None:
                          f'store to {mm} after the last commit of the handler (lost at teardown)')
 
 
+FLUSH_CALLS = ('flush', 'commit', 'execute', 'scalars', 'scalar', 'query', 'get', 'get_one', 'get_all', 'all',
+               'search', 'count', 'first', 'one', 'one_or_none', 'refresh')
+
+
+def r17_6(rep: Report, idx: Index, models: dict[str, Model], sites) -> None:
+    """replace = delete the old row, add a new one with the same unique value.  SQLAlchemy's unit of
+    work emits the INSERTs of a flush before its DELETEs, so the two must not share a flush: between
+    the deletion and the `add` of the new object of the same mapped class (which has a unique column)
+    there has to be a flush point - an explicit flush/commit or a query (autoflush).  Otherwise the
+    INSERT meets the old row: IntegrityError, HTTP 500, nothing replaced."""
+    rid = 'R17.6'
+    n_sites = 0
+    for model, lst in sorted(sites.items()):
+        m = models.get(model)
+        if m is None:
+            continue
+        uniq = [c.name for c in m.columns.values() if c.unique] + ['+'.join(u) for u in m.uniques]
+        if not uniq:
+            continue
+        for construct, node, f in lst:
+            order = dfs_order(f.node)
+            here = order.get(id(node))
+            if here is None:
+                continue
+            # constructions of the same mapped class later in the function
+            ctors = [n for n in ast.walk(f.node) if isinstance(n, ast.Call) and (call_name(n) or '').split('.')[-1] == model
+                     and order[id(n)] > here]
+            if not ctors:
+                continue
+            n_sites += 1
+            first = min(ctors, key=lambda n: order[id(n)])
+            # the add that makes it pending
+            adds = [n for n in ast.walk(f.node) if isinstance(n, ast.Call) and isinstance(n.func, ast.Attribute)
+                    and n.func.attr == 'add' and order[id(n)] > order[id(first)]]
+            end = min((order[id(n)] for n in adds), default=order[id(first)])
+            flushes = [n for n in ast.walk(f.node) if isinstance(n, ast.Call) and isinstance(n.func, ast.Attribute)
+                       and n.func.attr in FLUSH_CALLS and here < order[id(n)] < end
+                       and not (n.func.attr in ('get', 'all', 'count', 'first') and not _is_model_query(n, models))]
+            # reading a relationship attribute of a mapped object may load it (a query: autoflush) - whether
+            # it does depends on what the session already holds, so it counts as a possible flush point and
+            # the site is not reported (reports are for deletions and additions that share a flush for sure)
+            rel_names = {r.name for mm in models.values() for r in mm.rels.values()}
+            loads = [n for n in ast.walk(f.node) if isinstance(n, ast.Attribute) and isinstance(n.ctx, ast.Load)
+                     and n.attr in rel_names and here < order.get(id(n), -1) < end]
+            flushes = flushes + loads
+            # `x.delete(commit=True)` / ModelMixin.delete(commit=True) is its own flush point
+            own_commit = any(k.arg == 'commit' and isinstance(k.value, ast.Constant) and k.value.value is True
+                             for k in node.keywords)
+            key = f'{model}: delete then add [{construct.split("::")[1]}]'
+            if flushes or own_commit:
+                rep.ok(rid, construct, key, f'flush point `{short(flushes[0], 40) if flushes else "commit=True"}` in between')
+            else:
+                rep.fail(rid, construct, key,
+                         f'`{short(node, 50)}` and the later `{short(first, 40)}` (unique: {", ".join(uniq)}) are flushed '
+                         'together: SQLAlchemy emits the INSERT before the DELETE, the unique constraint fails '
+                         '(IntegrityError -> 500) and the old row stays', node, file=construct.split('::')[0])
+    if n_sites < 1:
+        raise AnalysisError('no delete-then-add replacement found')
+
+
+def _is_model_query(call: ast.Call, models: dict[str, Model]) -> bool:
+    recv = norm(call.func.value)
+    last = recv.split('.')[-1]
+    return last in models or 'session' in recv or 'query' in recv or recv.endswith(')')
+
+
 def analyse(rep: Report) -> None:
     rep.explanation = (
         'The ORM schema (foreign keys, relationships with cascades, association table, unique '
@@ -516,6 +582,7 @@ def analyse(rep: Report) -> None:
     rep.rule('R17.3', 'stores after the last commit of a handler', floor=0, informational=True)
     rep.rule('R17.5', 'delete cascades follow ownership (one-to-many) only', floor=5)
     rep.rule('R17.4', 'replace-on-upload deletes row and file together and links the new rows', floor=4)
+    rep.rule('R17.6', 'a row is deleted and its replacement added in different flushes', floor=1)
     idx = Index(rep.repo)
     cg = CallGraph(idx)
     eff = Effects(idx, cg)
@@ -535,3 +602,4 @@ def analyse(rep: Report) -> None:
     r17_2(rep, models)
     r17_3(rep, idx, cg)
     r17_4(rep, models)
+    r17_6(rep, idx, models, sites)
